@@ -290,9 +290,9 @@ func class(before, after Facts, P int) string {
 		return "blocks-complete"
 	case after.BlkAny > 0:
 		return "blocks-partial"
-	case after.TrieDone:
+	case after.Hdr > P && after.TrieDone:
 		return "mpt-complete"
-	case after.Stored > 0:
+	case after.Hdr > P && after.Reach > 0:
 		return "mpt-partial"
 	case after.Hdr > P:
 		return "headers-complete"
